@@ -169,6 +169,40 @@ func verifReplFromFed(f *structs.FederationState) VerifReplItem {
 	return VerifReplItem{ID: f.Datacenter, Mod: f.ModifyIndex, Body: body}
 }
 
+// VerifReplRealHash returns the item with its hash computed by the real code (ACLToken/ACLPolicy/ACLRole.SetHash,
+// structs.HashConfigEntry) from the object the item stands for, instead of a hash chosen by the harness.
+func VerifReplRealHash(inst string, it VerifReplItem) (VerifReplItem, error) {
+	it.NilH = false
+	switch inst {
+	case "token":
+		t := verifReplToken(it)
+		t.Hash = nil
+		it.Hash = t.SetHash(true)
+	case "policy":
+		p := verifReplPolicy(it)
+		p.Hash = nil
+		it.Hash = p.SetHash(true)
+	case "role":
+		r := verifReplRole(it)
+		r.Hash = nil
+		it.Hash = r.SetHash(true)
+	case "config":
+		e, err := verifReplConfigEntry(it)
+		if err != nil {
+			return it, err
+		}
+		e.SetHash(0)
+		h, err := structs.HashConfigEntry(e)
+		if err != nil {
+			return it, err
+		}
+		it.Hash64 = h
+	default:
+		return it, fmt.Errorf("verif: no content hash for instance %q", inst)
+	}
+	return it, nil
+}
+
 // verifReplReplicator builds the REAL replicator of the given type with its working state filled
 // in as FetchLocal / FetchRemote would have left it.
 func verifReplReplicator(typ string, local, remote []VerifReplItem) (aclTypeReplicator, error) {
@@ -426,8 +460,11 @@ func VerifReplNewServer() (*VerifReplServer, error) {
 		}
 		time.Sleep(5 * time.Millisecond)
 	}
-	if err := r.Barrier(5 * time.Second).Error(); err != nil {
-		return nil, err
+	// keep the secondary's raft index above every index the generators use (a write re-stamps the modify index)
+	for i := 0; i < 160; i++ {
+		if err := r.Barrier(5 * time.Second).Error(); err != nil {
+			return nil, err
+		}
 	}
 
 	prim := &verifReplPrimary{}
@@ -510,9 +547,19 @@ func (v *VerifReplServer) wipe() error {
 	if err != nil {
 		return err
 	}
-	for _, e := range ces {
-		if err := st.DeleteConfigEntry(idx, e.GetKind(), e.GetName(), e.GetEnterpriseMeta()); err != nil {
+	// entries that others depend on cannot go first (graph validation): several passes
+	for pass := 0; len(ces) > 0; pass++ {
+		var lastErr error
+		for _, e := range ces {
+			if err := st.DeleteConfigEntry(idx, e.GetKind(), e.GetName(), e.GetEnterpriseMeta()); err != nil {
+				lastErr = err
+			}
+		}
+		if _, ces, err = st.ConfigEntries(nil, nil); err != nil {
 			return err
+		}
+		if len(ces) > 0 && pass >= 4 {
+			return fmt.Errorf("verif: cannot empty the config entry table: %v", lastErr)
 		}
 	}
 	_, feds, err := st.FederationStateList(nil)
